@@ -227,6 +227,9 @@ func (g *ctlGen) gen() *event {
 	case "assoc":
 		ev.peer, ev.kind = g.peer(), "assoc"
 		ev.seq = g.nextSeq(ev.peer)
+		if r.chance(30) {
+			ev.rts = 1 + r.intn(5) // the peer has restarted: another Recovery Time Stamp
+		}
 		if !r.chance(4) {
 			if r.chance(80) {
 				ev.node = "4:p" + strconv.Itoa(ev.peer)
